@@ -49,6 +49,21 @@ func sliceInvariants(w *world, e xast.Expr, ns xsel.NodeSet) string {
 			desc = false
 		}
 	}
+	// document order as the data model defines it (an element, its namespace nodes, its attribute
+	// nodes, its children), independently of the positions the store happened to assign
+	oasc, odesc := true, true
+	for i := 1; i < len(ns); i++ {
+		a, b := w.m.ToA[ns[i-1]], w.m.ToA[ns[i]]
+		if b.Ord <= a.Ord {
+			oasc = false
+		}
+		if b.Ord >= a.Ord {
+			odesc = false
+		}
+	}
+	if asc != oasc || desc != odesc {
+		return "the order of the result by Pos() " + posSeq(ns) + " is not document order as XPath 1.0 section 5 defines it (namespace nodes before attribute nodes before children)"
+	}
 	if !asc && !desc {
 		return "Pos() sequence is neither strictly increasing nor strictly decreasing: " + posSeq(ns)
 	}
